@@ -56,6 +56,26 @@ def check_cell(ctx, cell, rng):
     why = P.headers_match(p, obj)
     if why:
         ctx.violation("header-differs", f"{why} for {d}", case)
+    if cell.n > 1 and isinstance(p.token, dict):
+        # every recipient on its own: its private key alone, the caller opting into any-recipient validation
+        for i, r in enumerate(p.recs):
+            o1 = P.consume_single(p, i)
+            ctx.count("single_recipient_decrypts")
+            kinds = "+".join(sorted({x["key"]["kty"] + ":" + str(x["key"].get("crv", "")) for x in p.recs}))
+            if not o1.ok:
+                if (o1.etype == "DecodeError" and "Multiple" in str(o1.exc) and r["key"]["kty"] == "RSA"
+                        and any(x["alg"] == "RSA1_5" for k2, x in enumerate(p.recs) if k2 != i)):
+                    # the RSA key is also tried on somebody else's RSA1_5 recipient, where the backend's implicit rejection hands back
+                    # a pseudo-random key instead of an error
+                    ctx.violation("single-recipient-rejected:multiple-cek:rsa-key-tried-on-foreign-RSA1_5-recipient",
+                                  f"recipient {i} ({r['alg']}) of a token for {cell.algs} cannot decrypt with its own RSA key under verify_all_recipients=False: "
+                                  f"{o1.exc!r} (another recipient uses RSA1_5)", {**case, "recipient": i})
+                    continue
+                ctx.violation(f"single-recipient-rejected:{o1.etype}:{r['key']['kty']}-key",
+                              f"recipient {i} ({r['alg']}) of a token for {cell.algs} (keys {kinds}) cannot decrypt with its own key under "
+                              f"verify_all_recipients=False: {o1.exc!r}", {**case, "recipient": i})
+            elif o1.value.plaintext != p.plaintext:
+                ctx.violation("single-recipient-plaintext-differs", f"recipient {i} reads another plaintext", {**case, "recipient": i})
     if len(ctx.samples) < 3 and len(p.plaintext) < 200:
         ctx.sample({"cell": d, "token": p.token})
     return p
